@@ -653,6 +653,90 @@ fn run_builder(v: &Value, out: &mut Vec<String>) {
     out.push(json!({"e":"bresult","refused_at":refused_at}).to_string());
 }
 
+// ------------------------------------------------------------------ two threads launching concurrently (C08)
+fn run_race(v: &Value, out: &mut Vec<String>) {
+    use std::sync::atomic::Ordering;
+    use subprocess::PopenConfig;
+    let at = v["switch_at"].as_i64().unwrap();
+    fn red(k: &str) -> Redirection {
+        if k == "pipe" { Redirection::Pipe } else { Redirection::None }
+    }
+    fn cfg_of(c: &Value) -> PopenConfig {
+        PopenConfig {
+            stdin: red(c[0].as_str().unwrap()),
+            stdout: red(c[1].as_str().unwrap()),
+            stderr: red(c[2].as_str().unwrap()),
+            ..Default::default()
+        }
+    }
+    out.push(json!({"e":"pre","fds":fd_table()}).to_string());
+    slog::GATE_COUNT.store(0, Ordering::SeqCst);
+    slog::GATE_GO.store(false, Ordering::SeqCst);
+    slog::GATE_BDONE.store(false, Ordering::SeqCst);
+    slog::resume();
+    let vch = vchild();
+    let vch2 = vch.clone();
+    let ca = v["a"].clone();
+    let cb = v["b"].clone();
+    let a = std::thread::spawn(move || {
+        slog::GATE_TID.store(unsafe { libc::syscall(libc::SYS_gettid) } as u32, Ordering::SeqCst);
+        slog::GATE_AT.store(at, Ordering::SeqCst);
+        let r = Popen::create(&[vch.as_str(), "@exit", "0", "A"], cfg_of(&ca));
+        slog::GATE_AT.store(-1, Ordering::SeqCst);
+        slog::GATE_GO.store(true, Ordering::SeqCst); // in case A needed fewer calls than the switch point
+        r.map(|mut p| {
+            let pid = p.pid();
+            p.stdin.take();
+            p.stdout.take();
+            p.stderr.take();
+            let _ = p.wait();
+            pid
+        })
+        .ok()
+        .flatten()
+    });
+    let b = std::thread::spawn(move || {
+        while !slog::GATE_GO.load(Ordering::SeqCst) {
+            unsafe { libc::usleep(100) };
+        }
+        let r = Popen::create(&[vch2.as_str(), "@exit", "0", "B"], cfg_of(&cb));
+        // the new program image has started (create returned): its table is what it is; let A go on
+        let r = r.map(|mut p| {
+            let pid = p.pid();
+            // wait for B's child to have reported before A resumes, so that the report shows the table at exec
+            if let Some(pid) = pid {
+                for _ in 0..400 {
+                    if std::path::Path::new(&format!("{}/{}.json", vr(), pid)).exists() {
+                        break;
+                    }
+                    std::thread::sleep(std::time::Duration::from_millis(2));
+                }
+            }
+            slog::GATE_BDONE.store(true, Ordering::SeqCst);
+            p.stdin.take();
+            p.stdout.take();
+            p.stderr.take();
+            let _ = p.wait();
+            pid
+        });
+        slog::GATE_BDONE.store(true, Ordering::SeqCst);
+        r.ok().flatten()
+    });
+    let pa = a.join().unwrap_or(None);
+    let pb = b.join().unwrap_or(None);
+    slog::stop();
+    let (_f, _pids) = sys_events(out);
+    let mut pids = vec![];
+    if let Some(p) = pb {
+        pids.push(p);
+    }
+    if let Some(p) = pa {
+        pids.push(p);
+    }
+    out.push(json!({"e":"hresult","ok":pa.is_some() && pb.is_some(),"panicked":false}).to_string());
+    stage_reports(out, &pids);
+}
+
 fn run_one(v: &Value, out: &mut Vec<String>) {
     let _ = fs::create_dir_all(tmpd());
     let kind = v["kind"].as_str().unwrap();
@@ -663,6 +747,7 @@ fn run_one(v: &Value, out: &mut Vec<String>) {
         "pipeline" => run_pipeline(v, out),
         "handle" => run_handle(v, out),
         "builder" => run_builder(v, out),
+        "race" => run_race(v, out),
         x => panic!("bad kind {}", x),
     }
     for l in watchdog_disarm() {
